@@ -11,7 +11,7 @@ one() {
   out=$(TAIL=400 tools/trymutp.sh "$d/patch.diff" "$id" "$tier" 2>&1)
   rc=$(echo "$out" | sed -n 's/^exit=//p' | tail -1)
   v=$(echo "$out" | grep -c '^VIOLATION')
-  first=$(echo "$out" | grep -m1 -E 'class=|VIOLATION|HARNESS|does not apply' | cut -c1-230)
+  first=$(echo "$out" | grep -m2 -E '^  key=|HARNESS|does not apply|NONDETERMINISM' | cut -c1-200 | tr '\n' ' ')
   echo "$(basename "$d") check=$id rc=$rc violations=$v $(( $(date +%s) - s ))s :: $first"
 }
 export -f one
